@@ -211,6 +211,10 @@ def corpus():
            [("trunc_write", 2, False, "a.toml", "", 50, 40), ("trunc_write", 2, False, "b.toml", "", 0, 40),
             ("append", 3, False, "readme.txt", "", 0, 5), ("append", 2, False, "a.toml", "", 0, 5),
             ("trunc_write", 2, False, "b.toml", "", 1, 40)], delay=150),
+        # a TOML write while the consumer is away, then a non-TOML write, then nothing: the waiting notification must still be delivered
+        mk("late-consumer-then-non-toml", [(2, False, "a.toml"), (2, False, "b.toml"), (3, False, "notes.txt"), (0, False, "x.toml~")],
+           [("append", 2, False, "a.toml", "", 100, 5), ("append", 2, False, "b.toml", "", 40, 5), ("append", 3, False, "notes.txt", "", 40, 5),
+            ("append", 0, False, "x.toml~", "", 20, 5)], delay=400),
         # a watcher that stays alive for 12 s with one write per second (TOML and non-TOML alternating): whatever is driven by uptime
         # (periodic timers) gets a chance to act; every TOML write must still be announced, the others not, and the stream must end
         mk("aged-12s", [(0, False, "a.toml"), (1, False, "notes.txt"), (2, False, "b.toml")],
